@@ -10,6 +10,21 @@ def _graphs(nv, E):
     edges = np.array([[a - 1, b - 1] for a, b in sorted(E)], dtype=int).reshape(-1, 2)
     out = [("undirected", ms.UndirectedGraph.init_from_edges(edges, nv))]
     out.append(("directed", ms.DirectedGraph.init_from_edges(edges, nv)))
+    # the same undirected graph in other legal representations of its adjacency: a dense array, and a sparse matrix that stores
+    # an explicit zero where an edge was removed (adj[i, j] = adj[j, i] = 0 on a csr_matrix) - no edge there
+    import scipy.sparse as sp
+
+    A = np.zeros((nv, nv), dtype=int)
+    for a, b in edges:
+        A[a, b] = A[b, a] = 1
+    out.append(("undirected(dense adjacency)", ms.UndirectedGraph(A.copy())))
+    hole = next(((i, j) for i in range(nv) for j in range(i + 1, nv) if not A[i, j]), None)
+    if hole is not None:
+        B = A.copy()
+        B[hole[0], hole[1]] = B[hole[1], hole[0]] = 1
+        Bs = sp.csr_matrix(B)
+        Bs.data[:] = [A[r, c] for r, c in zip(*Bs.nonzero())]      # same structure, a stored 0 at the removed edge
+        out.append(("undirected(sparse adjacency with a stored zero)", ms.UndirectedGraph(Bs)))
     # a spanning tree of the vertices is also given as a Tree rooted at its first vertex (edges directed away from the root)
     if len(edges) == nv - 1 and nv >= 2:
         adj = {v: set() for v in range(nv)}
